@@ -375,14 +375,16 @@ func sharedKind(td *gen.TD) string {
 }
 
 // changedInPlace reports whether the code may change an object of this type in place when it merges a setting into
-// it: not a pointer to a primitive, a regular expression or a list of primitives (a setting replaces those).
+// it: not a pointer to a primitive, a regular expression or a list of primitives (a setting replaces those) - unless the
+// primitive type implements an Unpacker interface with a pointer receiver.
 func changedInPlace(td *gen.TD) bool {
 	sh := td.Shape()
 	switch sh.Kind {
 	case "regexp":
 		return false
 	case "ptr", "slice":
-		return !sh.Elem.Shape().IsLeaf()
+		// (a type that unpacks itself through a pointer-receiver method writes the setting into the object)
+		return !sh.Elem.Shape().IsLeaf() || selfUnpacking[catBase(sh.Elem.Kind)] != ""
 	case "map":
 		return true
 	}
